@@ -1041,6 +1041,11 @@ class Interp:
                                 break
                         elif mode == 'exit' and not first:
                             raise Unsupported(f"loop re-entered after exhaustion in {fn['key']}")
+                        if st.loopmode.get(lk) == 'unroll':
+                            # a new iteration of an unrolled loop: loops nested in it start afresh
+                            for h2 in loops:
+                                if h2 != bb and h2 in loops[bb]['blocks']:
+                                    st.loopmode.pop((fr.id, h2), None)
                     first = False
                     blk = blocks[bb]
                     for s in blk['s']:
@@ -1366,11 +1371,14 @@ class Interp:
         for o, v in body.heap.items():
             if isinstance(v, Buf):
                 rec.marks[o] = len(v.stores)
+        body_start = dict(body.heap)
         outs = self.exec_from(body, fr, L['header'], stop_at={L['header']} | L['exits'], first=True)
         collected = []
+        early = [(s, oc) for s, oc in outs if oc[0] == 'reach' and oc[1] in L['exits']]
+        if any(oc[0] == 'ret' for s, oc in outs):
+            raise Unsupported(f"return from inside a summarised loop in {fn['key']}")
+        outs = [(s, oc) for s, oc in outs if not (oc[0] == 'reach' and oc[1] in L['exits'])]
         for s, oc in outs:
-            if oc[0] == 'ret' or (oc[0] == 'reach' and oc[1] in L['exits']):
-                raise Unsupported(f"early exit from loop in {fn['key']}")
             rec.paths += 1
             guard = s.pc[rec.pre_pc_len:]
             for o, v in s.heap.items():
@@ -1388,16 +1396,72 @@ class Interp:
         ex.loopmode[lk] = 'exit'
         self.summarise_stores(rec, st, ex, collected)
         self.check_interference(rec, ex)
+        conts = []
+        if early:
+            # a SEARCH loop: some iteration may leave the loop (break / return).  Supported when the iterations that
+            # continue have no effect at all; the loop then is  `if exists k: G(k) { leave } else { fall through }`.
+            local_objs = {fr.locals[l] for l in L['assigned']} | {fr.locals[itl]}
+            touched = any(o not in local_objs and s_.heap.get(o, self) is not v for s_, oc_ in outs for o, v in body_start.items())
+            if collected or touched:
+                raise Unsupported(f"early exit from a loop whose other iterations have effects in {fn['key']}")
+            fresh_ids = {k.id}
+            last = desc.get('last') or {}
+            for nm in ('x', 'y'):
+                if nm in last: fresh_ids.add(last[nm].id)
+            def depends(v, depth=0):
+                if isinstance(v, E):
+                    return any(n.id in fresh_ids for n in X.walk(v))
+                if isinstance(v, (Agg, EnumV)):
+                    return any(depends(f, depth + 1) for f in v.fields)
+                return False
+            for s, oc in early:
+                start = desc.get('last_pc_len', rec.pre_pc_len)      # conditions established while producing the item are not part of the test
+                guard = [c for c in s.pc[start:] if not (c.op == 'lt' and c.args[0].id in fresh_ids)]
+                if not guard:
+                    raise Unsupported('unconditional early exit from a summarised loop')
+                pred = guard[0]
+                for c in guard[1:]:
+                    pred = X.binop('and', pred, c)
+                res = X.fresh(X.TB, 'exists')
+                ev = dict(ev='exists', sym=res, pred=pred, site=(fn['key'], L['header']), pc=tuple(guard))
+                ev.update({kk: vv for kk, vv in last.items()})
+                self.rec.events.append(ev)
+                es = s.clone()
+                es.pc = st.pc
+                es.loops = st.loops
+                es.loopmode = dict(st.loopmode); es.loopmode[lk] = 'exit'
+                # the state that leaves must not carry anything that depends on the witness iteration
+                for o, v in list(es.heap.items()):
+                    if o in st.heap and st.heap[o] is v:
+                        continue
+                    if depends(v):
+                        if o in st.heap:
+                            # a loop-assigned local still holding the witness iteration's value: keep it as an unknown
+                            loc = [l for l in hv if fr.locals[l] == o]
+                            if not loc:
+                                raise Unsupported('early exit carries a value that depends on the iteration')
+                            es.heap[o] = hv[loc[0]][1]
+                        else:
+                            es.heap.pop(o)
+                try:
+                    es.assume(res)
+                    conts.append((es, oc[1]))
+                except PathEnd:
+                    pass
+                try:
+                    ex.assume(X.unop('not', res))
+                except PathEnd:
+                    return conts
         if rec.paths == 0:
             # every path of the body ends in a (recorded) panic: the code after the loop is
             # reached only when the loop does not iterate at all
             try:
                 ex.assume(X.binop('eq', n, X.const(n.ty, 0)))
                 if self.decide(ex, X.binop('eq', n, X.const(n.ty, 0))) is False:
-                    return []
+                    return conts
             except PathEnd:
-                return []
-        return [(ex, L['header'])]
+                return conts
+        return conts + [(ex, L['header'])]
 
     def summarise_stores(self, rec, st, ex, collected):
         """turn the stores made during one symbolic iteration into quantified store summaries of the exit state"""
